@@ -328,8 +328,8 @@ class Neo4jPropertyGraph(ABCPropertyGraph):
         if len(all_props) > 2:
             all_props = all_props[:-2]
 
-        query = "MATCH (a:GraphNode {{GraphID: $graphId, NodeID: $nodeA}}) -[r:{kind}]- " \
-            f"(b:GraphNode {{GraphID: $graphId, NodeID:$nodeB}}) SET r+= {{ {all_props} }} RETURN properties(s)"
+        query = f"MATCH (a:GraphNode {{GraphID: $graphId, NodeID: $nodeA}}) -[r:{kind}]- " \
+            f"(b:GraphNode {{GraphID: $graphId, NodeID:$nodeB}}) SET r+= {{ {all_props} }} RETURN properties(r)"
         with self.driver.session() as session:
             val = session.run(query, graphId=self.graph_id, nodeA=node_a, nodeB=node_b)
             if val is None or len(val.value()) == 0:
@@ -523,7 +523,7 @@ class Neo4jPropertyGraph(ABCPropertyGraph):
         """
         assert node_id is not None
         assert label is not None
-        query = f"MATCH (n:GraphNode:{label} {{GraphID: $graphId, NodeID: $nodeId}} RETURN collect(n.NodeID) as nodeids"
+        query = f"MATCH (n:GraphNode:{label} {{GraphID: $graphId, NodeID: $nodeId}}) RETURN collect(n.NodeID) as nodeids"
         with self.driver.session() as session:
             val = session.run(query, graphId=self.graph_id, nodeId=node_id).single()
             if val is None or len(val.data()) == 0 or len(val.data()['nodeids']) == 0:
